@@ -424,6 +424,8 @@ class SymRun:
             idem = ex.decide(val_eq(c, c2))
             canon.append({'id': cid, 'vals': [p.f[1].f[0] for p in pairs], 'keys': [p.f[0].f[0] for p in pairs], 'idem': idem,
                           'hvals': [p.f[1].f[0] for p in self.handles[t].f[1].f[0].items]})
+            if self.t.analysis != '()':      # the datum read through the handle's own (possibly merged-away) id: equal classes share one datum
+                canon[-1]['hdata'] = data_value(dd(ex.call(self.M('EGraph::analysis_data'), [self.egref, cp(self.handles[t].f[0])])))
         snap['canon'] = canon
         snap['eq'] = [[(self.eq(self.handles[a], self.handles[b]) if self.handles[a] is not None and self.handles[b] is not None else False) for b in terms] for a in terms]
         ids = ex.call(self.M('EGraph::ids'), [self.egref])
@@ -561,7 +563,7 @@ def concretize(run, ex):
             def name_of_value_(v, N_, vals_, model_, vis=vis): return _nov(v, N_, vals_, model_, vis)
             st = {k: v for k, v in s.items() if k not in ('canon',)}
             st['op'] = list(s['op'])
-            st['canon'] = [None if c is None else {'id': c['id'], 'idem': c['idem'], 'nslots': len(c['vals']),
+            st['canon'] = [None if c is None else {'id': c['id'], 'idem': c['idem'], 'nslots': len(c['vals']), **({'hdata': c['hdata']} if 'hdata' in c else {}),
                             'vals': sorted(str(name_of_value_(v, N, vals, model)) for v in c['vals']),
                             'map': sorted((str(name_of_value_(k, N, vals, model)), str(name_of_value_(v, N, vals, model))) for k, v in zip(c['keys'], c['vals'])),
                             'hvals': sorted(str(name_of_value_(v, N, vals, model)) for v in c['hvals'])} for c in s['canon']]
